@@ -317,7 +317,7 @@ fn execute(c: &Case, obs: &mut Vec<String>) {
         let t: Vec<&str> = l.split_whitespace().collect();
         match t[0] {
             "Q" => q = FPCoordinate::new(t[1].parse().unwrap(), t[2].parse().unwrap()),
-            "E" => elems.push((FPCoordinate::new(t[2].parse().unwrap(), t[3].parse().unwrap()), PartitionID::new(t[1].parse().unwrap()))),
+            "E" => elems.push((FPCoordinate::new(t[2].parse().unwrap(), t[3].parse().unwrap()), PartitionID(t[1].parse().unwrap()))),
             _ => panic!("unknown op"),
         }
     }
